@@ -124,14 +124,18 @@ CURATED = [
 ]
 
 
-def consts(inputs_tla, free, caps, chunks, cap_pats, chunk_pats, buf=1000, max_intr=0, max_fail=0):
+NOCUT = [[0, 0, 0, 0]]
+
+
+def consts(inputs_tla, free, caps, chunks, cap_pats, chunk_pats, buf=1000, max_intr=0, max_fail=0, cuts=NOCUT):
     return {"Inputs": inputs_tla, "FreeMode": "TRUE" if free else "FALSE",
             "CapSizes": core.tla_set(caps), "ChunkSizes": core.tla_set(chunks),
-            "CapPatterns": tla_pats(cap_pats), "ChunkPatterns": tla_pats(chunk_pats), "Buf": str(buf), "MaxIntr": str(max_intr), "MaxFail": str(max_fail)}
+            "CapPatterns": tla_pats(cap_pats), "ChunkPatterns": tla_pats(chunk_pats), "Buf": str(buf), "MaxIntr": str(max_intr), "MaxFail": str(max_fail), "CutChoices": tla_pats(cuts)}
 
 
-SEQ = ("Inputs", "CapPatterns", "ChunkPatterns", "CapSizes", "ChunkSizes")
-INVS = ["InputsOK", "TypeOK", "OutputOK", "NoSpuriousError", "ErrorNotLost", "Progress", "Complete", "BufInv", "CallBound"]
+SEQ = ("Inputs", "CapPatterns", "ChunkPatterns", "CapSizes", "ChunkSizes", "CutChoices")
+INVS = ["InputsOK", "TypeOK", "OutputOK", "NoSpuriousError", "ErrorNotLost", "TruncationSurfaces", "Progress", "Complete", "BufInv", "CallBound"]
+CUTS = [[0, 0, 0, 0], [1, 0, 0, 0], [0, 1, 0, 0], [0, 0, 3, 0], [0, 4, 0, 0], [0, 0, 0, 1], [0, 0, 0, 5], [2, 0, 4, 1], [0, 0, 0, 99]]
 WITNESSES = ["WitnessSplitOperand", "WitnessNormAtExit", "WitnessPartial32", "WitnessJccAcrossCalls"]
 
 
@@ -175,7 +179,7 @@ def parse_scripts(out):
             v = json.loads(json.loads(line))
         except ValueError:
             continue
-        res.append({"inp": v["script"], "cap": v["cap"], "ch": v["ch"], "hist": v["hist"]})
+        res.append({"inp": v["script"], "cap": v["cap"], "ch": v["ch"], "cut": v.get("cut", 1), "hist": v["hist"]})
     return res
 
 
@@ -205,7 +209,9 @@ def run(ctx, tier, rnd, classes=None):
     jobs = [lambda: tlc(cst, INVS, workers=6 if quick else 10, timeout=900 if quick else 3000)]
     if quick:
         jobs.append(lambda: tlc(consts(tla_inputs(fpairs), True, caps, chunks, [[1]], [[1]], buf=6, max_intr=0, max_fail=1), INVS, workers=3, timeout=900))
-    rr = dlib.parallel(jobs, workers=2)
+    # truncated sources: every cut of CUTS, free sizes, curated strings (quick) / all inputs (thorough)
+    jobs.append(lambda: tlc(consts(tla_inputs(fpairs if quick else pairs), True, caps, chunks, [[1]], [[1]], buf=6, cuts=CUTS), INVS, workers=3 if quick else 8, timeout=900 if quick else 3000))
+    rr = dlib.parallel(jobs, workers=3)
     r = rr[0]
     ctx.note_tlc("Bcj2Decoder free mode", r)
     for r2 in rr[1:]:
@@ -259,10 +265,32 @@ def run(ctx, tier, rnd, classes=None):
         x = sin[s["inp"] - 1]
         cases.append({"id": f"s{i}", "orig_hex": x["orig"].hex(), "flags": x["flags"], "caps": cap_pats[s["cap"] - 1],
                       "chunks": [chunk_pats[c - 1] for c in s["ch"]]})
+    # the same with truncated sources (every cut of CUTS): the exported history ends with the predicted error
+    tsin = [x for x in sin if len(x["flags"]) >= 1][:12 if quick else 40]
+    tspairs = [(x, real_norms(x["orig"], x["flags"])) for x in tsin]
+    tcap, tchunk = [[1], [3], [64]], [[1], [64]] if quick else [[1], [3], [64]]
+    rs2 = tlc(consts(tla_inputs(tspairs), False, [1], [1], tcap, tchunk, buf=1 << 18, cuts=CUTS), INVS + ["Export"], workers=4, timeout=900, coverage=False)
+    ctx.note_tlc("Bcj2Decoder pattern mode, truncated sources", rs2)
+    if not rs2.ok:
+        raise ToolError(f"TLC reports {rs2.violated} for the BCJ2 decoder design (pattern mode, truncated sources)")
+    scripts2 = parse_scripts(rs2.out)
+    if len(scripts2) != len(tspairs) * len(tcap) * len(tchunk) ** 4 * len(CUTS):
+        raise ToolError(f"BCJ2 script export (truncated sources) incomplete: {len(scripts2)}")
+    n_final_err = 0
+    for i, s in enumerate(scripts2):
+        x = tsin[s["inp"] - 1]
+        cases.append({"id": f"c{i}", "orig_hex": x["orig"].hex(), "flags": x["flags"], "caps": tcap[s["cap"] - 1],
+                      "chunks": [tchunk[c - 1] for c in s["ch"]], "cut": CUTS[s["cut"] - 1]})
+        n_final_err += bool(s["hist"] and s["hist"][-1][0][0] == "err")
+    if n_final_err == 0:
+        raise ToolError("vacuous truncation export: no behaviour ends in an error")
+    ctx.add("bcj2_truncated_behaviours_ending_in_error", n_final_err)
+    sin_of = [sin] * len(scripts) + [tsin] * len(scripts2)
+    scripts = scripts + scripts2
     res = dlib.run_cases("vh_bcj2", cases, timeout=1800, per_batch=400)
     n_ok = n_drift = 0
     drift_ex = None
-    for s, c, o in zip(scripts, cases, res):
+    for s, c, o, sin in zip(scripts, cases, res, sin_of):
         bad = judge(ctx, c, o, base)
         if bad:
             continue
@@ -295,8 +323,9 @@ def run(ctx, tier, rnd, classes=None):
         chs = [[rnd.choice([1, 2, 3, 4, 5, 7, 64, 1 << 20]) for _ in range(rnd.randint(1, 3))] for _ in range(4)]
         intr = sorted(rnd.sample(range(0, 60), rnd.randint(0, 4))) if i % 2 else []
         fail = sorted(rnd.sample(range(0, 80), rnd.randint(1, 3))) if i % 4 == 3 else []
+        cut = rnd.choice(CUTS[1:]) if i % 5 == 4 else CUTS[0]
         tcases.append({"id": f"t{i}", "orig_hex": x["orig"].hex(), "flags": x["flags"], "caps": caps_, "chunks": chs, "intr": intr,
-                       "fail": [f for f in fail if f not in intr], "trace": True})
+                       "fail": [f for f in fail if f not in intr], "cut": cut, "trace": True})
     tres = dlib.run_cases("vh_bcj2", tcases, timeout=1800)
     events, tp = [], []
     for i, (x, c, o) in enumerate(zip(tin, tcases, tres)):
@@ -306,11 +335,11 @@ def run(ctx, tier, rnd, classes=None):
         if [int(b) for b in nm] != o["norm"]:
             raise ToolError(f"the Python port of the flag coder and the harness encoder disagree on the normalisation pattern of {c['id']}")
         tp.append((x, nm))
-        events.append({"op": "Reset", "inp": len(tp)})
+        events.append({"op": "Reset", "inp": len(tp), "cut": CUTS.index(c["cut"]) + 1})
         events += o["events"]
     accepted = 0
     if tp:
-        cst = consts(tla_inputs(tp), True, [1], [1], [[1]], [[1]], buf=1 << 18, max_intr=1 << 20, max_fail=1 << 20)
+        cst = consts(tla_inputs(tp), True, [1], [1], [[1]], [[1]], buf=1 << 18, max_intr=1 << 20, max_fail=1 << 20, cuts=CUTS)
         ok, reached, total, r = core.validate_events("Trace_Bcj2Decoder", cst, events, invariants=("Track", "TraceInv"), timeout=1800, seq_consts=SEQ)
         ctx.note_tlc("trace Bcj2Decoder", r)
         if ok:
@@ -349,6 +378,15 @@ def judge(ctx, c, o, base):
         ctx.violation(f"bcj2 (exact script): panic {o['panic']} with destination sizes {c['caps']} and source deliveries {c['chunks']}",
                       dict(base, **{"class": "panic"}), rep)
         return True
+    if any(c.get("cut") or []):
+        # truncated sources: a correct prefix, then either everything (the missing bytes were not needed) or an error
+        got_err = any(k.get("err") not in (None, "", "intr") for k in o.get("calls", []))
+        if o.get("prefix_ok") is not True or o.get("stuck") or (o.get("rt_ok") is not True and not got_err):
+            ctx.violation(f"bcj2 (exact script): sources truncated by {c['cut']} bytes (main, call, jump, rc), destination sizes {c['caps']}, deliveries {c['chunks']}: the reader "
+                          f"{'delivers wrong bytes' if o.get('prefix_ok') is not True else 'makes no progress' if o.get('stuck') else 'ends short without an error'} "
+                          f"(got {o.get('got', o.get('n'))} of {o.get('n')} bytes)", dict(base, **{"class": "bcj2_truncated"}), rep)
+            return True
+        return False
     if c.get("fail"):
         # a non-retryable source error was injected: the run either recovers and delivers everything, or ends with
         # that error after a correct prefix - never wrong bytes, never silently short, never stuck
